@@ -897,9 +897,14 @@ func (c *Context) Log10(d, x *Decimal) (Condition, error) {
 	if err != nil {
 		return 0, fmt.Errorf("ln: %w", err)
 	}
-	nc.Precision = c.Precision
-
-	qr, err := nc.Mul(d, &z, decimalInvLn10.get(c.Precision+2))
+	// The final multiplication rounds to the caller's precision and exponent
+	// range (the working context above has the package's full range, which
+	// would let results escape the caller's MinExponent/MaxExponent). The
+	// caller's traps are applied to the combined flags below.
+	fc := c.WithPrecision(c.Precision)
+	fc.Rounding = RoundHalfEven
+	fc.Traps = 0
+	qr, err := fc.Mul(d, &z, decimalInvLn10.get(c.Precision+2))
 	if err != nil {
 		return 0, err
 	}
